@@ -596,7 +596,7 @@ def o_interleave(ctx):
             p.me = i
             try:
                 try:
-                    doc = p.parse(impl.StringScanner(srcs[i]), m)
+                    doc = p.parse(impl.source_arg(srcs[i]), m)
                     results[i] = {"ok": doc}
                 except impl.CompositeParserException as e:
                     results[i] = {"errors": [impl.err_json(x) for x in e.errors]}
@@ -1064,7 +1064,7 @@ def o_c17(ctx):
             for _ in range(idc):
                 ge.id_generator.get_next_id()
             orig = ge.parser.parse
-            ge.parser.parse = lambda x, m=None, orig=orig: orig(impl.StringScanner(x), m)
+            ge.parser.parse = lambda x, m=None, orig=orig: orig(impl.source_arg(x), m)
             acc.extend(copy.deepcopy(x) for x in ge.enum({"source": {"uri": "u%d" % i, "data": s, "mediaType": "text/x.cucumber.gherkin+plain"}}))
             idc = impl.read_counter(ge.id_generator)
         if canon(whole.get("envelopes")) != canon(acc):
@@ -1150,14 +1150,14 @@ def o_c18(ctx):
             pa = Parser(impl.AstBuilder())
             pa.stop_at_first_error = True
             try:
-                pa.parse(impl.StringScanner(ABORT), TokenMatcher("en"))
+                pa.parse(impl.source_arg(ABORT), TokenMatcher("en"))
             except impl.ParserException:
                 pass
         b = Rec()
         p = Parser(b)
         errs = []
         try:
-            p.parse(impl.StringScanner(src), TokenMatcher("en"))
+            p.parse(impl.source_arg(src), TokenMatcher("en"))
         except impl.CompositeParserException as e:
             errs = e.errors
         nlines = len(src.split("\n")) - (1 if src.endswith("\n") or src == "" else 0)
